@@ -13,8 +13,8 @@ fn attrs(v: &[&Attribute]) -> String {
             None => {
                 if let Some(x) = a.downcast::<attributes::Allow>() { ("allow".into(), x.allowed_lints.clone()) }
                 else if let Some(x) = a.downcast::<attributes::Deprecated>() { ("deprecated".into(), x.reason.iter().cloned().collect()) }
-                else if let Some(x) = a.downcast::<attributes::Compress>() { ("compress".into(), vec![format!("{}{}", if x.compress_args {"Args"} else {""}, if x.compress_return {"Return"} else {""})]) }
-                else if let Some(x) = a.downcast::<attributes::SlicedFormat>() { ("slicedFormat".into(), vec![format!("{}{}", if x.sliced_args {"Args"} else {""}, if x.sliced_return {"Return"} else {""})]) }
+                else if let Some(x) = a.downcast::<attributes::Compress>() { ("compress".into(), [("Args", x.compress_args), ("Return", x.compress_return)].iter().filter(|p| p.1).map(|p| p.0.to_string()).collect()) }
+                else if let Some(x) = a.downcast::<attributes::SlicedFormat>() { ("slicedFormat".into(), [("Args", x.sliced_args), ("Return", x.sliced_return)].iter().filter(|p| p.1).map(|p| p.0.to_string()).collect()) }
                 else { (a.kind.directive().to_string(), vec![]) }
             }
         };
